@@ -204,6 +204,9 @@ class Writer(Model):
         if name == "write":
 
             def write(i, a, k):
+                from .models_aio import clock
+
+                i.ctx.ghost["io_clock"] = clock(i)
                 self.written = z3.Concat(self.written, term(a[0]))
                 i.ctx.event("write", self.tag, a[0])
 
@@ -256,6 +259,9 @@ class Reader(Model):
                 n = a[0] if a else -1
 
                 def run():
+                    from .models_aio import clock
+
+                    i.ctx.ghost["io_clock"] = clock(i)
                     net_wait(i, "reader.read")
                     i.suspend("reader.read")
                     c = i.ctx.choose(2, "read-outcome")
@@ -282,6 +288,9 @@ class Reader(Model):
 
             def readline(i, a, k):
                 def run():
+                    from .models_aio import clock
+
+                    i.ctx.ghost["io_clock"] = clock(i)
                     net_wait(i, "reader.readline")
                     i.suspend("reader.readline")
                     c = i.ctx.choose(3, "readline-outcome")
